@@ -834,6 +834,25 @@ class Gen(object):
                    'refine', 'translate', 'scale', 'rotate', 'ctrlpts_n']
         if kind[0] == 'N':
             choices += ['weights', 'weights', 'ctrlptsw', 'ctrlpts']
+        if rng.random() < .07:
+            # a rejected edit (the setter / operation raises): the object must stay coherent
+            bad = rng.choice(['degree', 'knotvector', 'delta', 'sample_size', 'insert', 'insert_param'])
+            STATS.setdefault('rejected_edits', {}); STATS['rejected_edits'][bad] = STATS['rejected_edits'].get(bad, 0) + 1
+            if bad == 'degree':
+                return [dict(k='set', t=t, a='degree' + sfx(i), v=-1)]
+            if bad == 'knotvector':
+                wrong = rknots(rng, deg[i], sizes[i])
+                wrong = wrong[:-1] if rng.random() < .5 else wrong[:deg[i] + 1] + [F(-1)] + wrong[deg[i] + 2:]
+                return [dict(k='set', t=t, a='knotvector' + sfx(i), v=wrong)]
+            if bad == 'delta':
+                return [dict(k='set', t=t, a='delta' + (sfx(i) if rng.random() < .5 else ''), v=rng.choice([0, F(3, 2), -F(1, 4)]))]
+            if bad == 'sample_size':
+                return [dict(k='set', t=t, a='sample_size' + (sfx(i) if rng.random() < .5 else ''), v=F(5, 2))]
+            if bad == 'insert':
+                par = [None] * pd; nums = [0] * pd; par[i] = F(1, 2); nums[i] = deg[i] + 1
+                return [dict(k='ops', t=t, a='insert_knot', args=[par, nums])]
+            par = [None] * pd; nums = [0] * pd; par[i] = F(3, 2); nums[i] = 1
+            return [dict(k='call', t=t, a='insert_knot', args=[par[0]] if pd == 1 else [], kw=(dict(num=1) if pd == 1 else {DIRS[i]: F(3, 2), 'num_' + DIRS[i]: 1}))]
         if pd == 1:
             choices += ['reverse', 'reverse', 'reverse']
         if pd == 2:
